@@ -167,7 +167,8 @@ func runC20(src sim.Source, o Opts) *Result {
 		beh := sim.Pick(src, "behaviour", behaviours)
 		status := sim.Pick(src, "status", statuses)
 		withLoc := src.Intn("withloc", 3) == 0 // behaviour "status": a Location header is set before the status is written
-		p := world.Probe{Method: "GET", Host: "sim.invalid", Path: fmt.Sprintf("/l%d/v%d", ri, q)}
+		// the Host field as sent: with a port, an IPv6 literal, upper-case letters, a trailing dot, or none at all
+		p := world.Probe{Method: "GET", Host: sim.Pick(src, "reqhost", []string{"sim.invalid", "sim.invalid", "sim.invalid:8080", "[::1]:80", "SIM.Invalid.", ""}), Path: fmt.Sprintf("/l%d/v%d", ri, q)}
 		switch kind {
 		case model.KNoRoute:
 			p.Path = "/nope/" + strconv.Itoa(q)
